@@ -78,6 +78,16 @@ def physical_name_rule(ctx, rid, only_harvester=False):
                     if norm(cur) in raw:
                         verdict = ("raw", norm(cur), None)
                         break
+                    if isinstance(cur, ast.Attribute) and isinstance(cur.value, ast.Name) and cur.value.id == "self" and f.cls is not None and cur.attr in f.cls.methods \
+                            and any(norm(d_) in ("property", "functools.cached_property", "cached_property") for d_ in f.cls.methods[cur.attr].node.decorator_list):
+                        # a property of the same class: its (single) returned expression
+                        pm = f.cls.methods[cur.attr]
+                        prets = [r for r in walk_shallow(pm.node) if isinstance(r, ast.Return) and r.value is not None]
+                        if len(prets) != 1:
+                            raise AnalysisError("idiom changed: property %s has %d return statements" % (pm.qualname, len(prets)))
+                        ctx.touch(pm)
+                        cur = prets[0].value
+                        continue
                     if isinstance(cur, ast.Name):
                         d = single_def(f, cur.id, g)
                         if d is None:
@@ -348,6 +358,25 @@ def through_save_rule(ctx, rid):
             rr.ok("%s saves the new dataset through save_full_ds" % mname)
         else:
             rr.bad(ctx.finding(rid, f, f.node, "%s does not persist its result through save_full_ds(new_ds) when a data name is set" % mname, construct="no-save " + mname), "%s saves" % mname)
+        if mname == "expand_dims":
+            # the new dimension is labelled with the given value, whatever that value is (0, 0.0, False and '' are labels too)
+            vpar = f.positional[2] if len(f.positional) > 2 else "value"
+            lab = [st for st in ast.walk(f.node) if isinstance(st, ast.Assign) and isinstance(st.targets[0], ast.Subscript) and ".coords" in norm(st.targets[0].value) and vpar in names_in(st.value)]
+            need(lab, "anchor lost: expand_dims does not label the new dimension with `%s`" % vpar)
+            guards = []
+            p_ = getattr(lab[0], "_parent", None)
+            while p_ is not None and p_ is not f.node:
+                if isinstance(p_, (ast.If, ast.IfExp)) and vpar in names_in(p_.test):
+                    guards.append(p_.test)
+                p_ = getattr(p_, "_parent", None)
+            truthy = [t for t in guards if isinstance(t, ast.Name) or (isinstance(t, ast.UnaryOp) and isinstance(t.op, ast.Not) and isinstance(t.operand, ast.Name))]
+            if truthy:
+                rr.bad(ctx.finding(rid, f, truthy[0], "the coordinate of the new dimension is attached only `if %s` (truthiness): for the labels 0, 0.0, False or '' the dimension stays without a coordinate, later harvests along it are aligned by position "
+                                   "and the points harvested at that label are lost or relabelled" % norm(truthy[0]), construct="label-if-truthy"), "expand_dims labels")
+            elif all(isinstance(t, ast.Compare) and isinstance(t.ops[0], (ast.Is, ast.IsNot)) for t in guards):
+                rr.ok("expand_dims labels the new dimension with the given value%s" % (" (guard: %s)" % norm(guards[0]) if guards else ""))
+            else:
+                raise AnalysisError("idiom changed: guard of the coordinate label in expand_dims: %s" % [norm(t) for t in guards])
         # the saved dataset replaces the file: it must be derived from the file's current content, not from a possibly
         # stale in-memory copy (another session may have harvested in between)
         fl2 = Flow(g, {"self.data_name": NOTNONE, "self._full_ds": NOTNONE}).run()
@@ -435,6 +464,31 @@ def engine_tables_rule(ctx, rid):
                             stores[repr(cv.value)] = st_.value.value
                 elif isinstance(op, (ast.Eq, ast.In)):
                     loose.append((fn, n))
+    # a table look-up keyed by the value (TABLE[val], TABLE.get(val), val in TABLE) compares by hash / equality as well
+    lookups = []
+    for fn in fam:
+        for n in ast.walk(fn.node):
+            tbl = None
+            if isinstance(n, ast.Subscript) and isinstance(n.slice, ast.Name) and n.slice.id == "val" and isinstance(n.ctx, ast.Load):
+                tbl = n.value
+            elif isinstance(n, ast.Call) and isinstance(n.func, ast.Attribute) and n.func.attr == "get" and n.args and isinstance(n.args[0], ast.Name) and n.args[0].id == "val":
+                tbl = n.func.value
+            elif isinstance(n, ast.Compare) and len(n.ops) == 1 and isinstance(n.ops[0], (ast.In, ast.NotIn)) and isinstance(n.left, ast.Name) and n.left.id == "val":
+                tbl = n.comparators[0]
+            if tbl is None:
+                continue
+            lit = tbl
+            if isinstance(tbl, ast.Name):
+                d = single_def(fn, tbl.id)
+                lit = d[1] if d and d[1] is not None else fn.module.consts.get(tbl.id)
+            keys = lit.keys if isinstance(lit, ast.Dict) else lit.elts if isinstance(lit, (ast.Tuple, ast.List, ast.Set)) else None
+            if keys is not None and any(isinstance(k, ast.Constant) and (k.value is True or k.value is False) for k in keys):
+                lookups.append((fn, n, norm(tbl)))
+    if lookups and not loose:
+        fn, n, tname = lookups[0]
+        rr.bad(ctx.finding(rid, fn, n, "attributes are rewritten by looking the value up in `%s` (`%s`): a look-up compares by hash and equality, and 1 == True, 0 == False, so numeric attributes 0, 1, 0.0, 1.0 are saved as 'False' / 'True' "
+                           "instead of by the identity tests `val is None / True / False`" % (tname, norm(n)[:50]), construct="attr-rewrite-tests"), "attr rewriting")
+        return rr
     if loose:
         fn, n = loose[0]
         rr.bad(ctx.finding(rid, fn, n.test, "attributes are rewritten under `%s` instead of the identity tests `val is None / True / False`: an == / `in` test also rewrites the numbers 0, 1, 0.0, 1.0 to 'False' / 'True'" % norm(n.test), construct="attr-rewrite-tests"), "attr rewriting")
